@@ -27,6 +27,12 @@ from sim.kernel import Engine, StopRun
 N = EC.N
 ADV_NONCES = [1, 2, 3, N - 1, N - 2, (N + 1) // 2, (N - 1) // 2, 2 ** 255 % N, 0x7fffffffffffffffffffffffffffffff5d576e7357a4501ddfe92f46681b20a0]
 ADV_SECRETS = [1, 2, 3, N - 1, N - 2, 0xff, 1 << 128, (1 << 248) - 1, 1 << 255]
+try:
+    import json as _json
+    import os as _os
+    SHORT_ADDR_KEYS = _json.load(open(_os.path.join(_os.path.dirname(_os.path.abspath(__file__)), 'data', 'short_address_keys.json')))['keys']
+except (OSError, ValueError, KeyError):
+    SHORT_ADDR_KEYS = []
 ADV_DIGESTS = ['00' * 32, 'ff' * 32, '%064x' % N, '%064x' % (N - 1), '%064x' % (N + 1), '00' * 31 + '01', '80' + '00' * 31]
 
 
@@ -56,7 +62,7 @@ class Sign(Engine):
                        'and chain selections; distinct = distinct trace-shape digest (step kinds, high-S/low-S branch, r length, recid, template, hash type, '
                        'edit outcomes); non-trivial = at least one signature was produced under a planned nonce')
     quick_runs = 2500
-    quick_runs_by_prop = {'C13': 2500, 'C14': 2500, 'C05': 1500}
+    quick_runs_by_prop = {'C13': 2500, 'C14': 1800, 'C05': 1500}
 
     # ------------------------------------------------------------------ plan generation
     def gen_secret(self, rng):
@@ -111,6 +117,10 @@ class Sign(Engine):
             steps.append({'t': 0.0, 'prio': 0, 'party': 0, 'op': a['op'], 'args': a})
         for _ in range(nkeys):
             S({'op': 'key', 'secret': '%064x' % self.gen_secret(rng), 'compressed': rng.random() < 0.6})
+            if SHORT_ADDR_KEYS and rng.random() < 0.08:
+                # a key whose mainnet address text is unusually short (leading zero bytes in its hash)
+                k = rng.choice(SHORT_ADDR_KEYS)
+                steps[-1]['args'].update(secret=k['secret'], compressed=k['compressed'])
         n = rng.choice([2, 4, 6, 10]) if prop != 'C05' else rng.choice([1, 2, 3])
         for _ in range(n):
             r = rng.random()
@@ -121,7 +131,7 @@ class Sign(Engine):
                     S({'op': 'sign', 'key': rng.randrange(16), 'digest': self.gen_digest(rng), 'nonce': '%064x' % self.gen_nonce(rng)})
                 elif r < 0.62:
                     S({'op': 'verify_crafted', 'key': rng.randrange(16), 'digest': self.gen_digest(rng),
-                       'kind': rng.choice(['valid', 'other-message', 'zero-r', 'zero-s', 'r=n', 's=n', 'twin', 'random', 'other-key', 'r+n',
+                       'kind': rng.choice(['valid', 'other-message', 'zero-r', 'zero-s', 'r=n', 's=n', 'twin', 'random', 'other-key', 'r+n', 'infinity', 'infinity',
                                             'pubkey-offcurve', 'pubkey-garbage', 'pubkey-empty', 'pubkey-hybrid', 'pubkey-offcurve-x-x']),
                        'nonce': '%064x' % self.gen_nonce(rng), 'rand': [gen.rhex(rng, 32), gen.rhex(rng, 32)]})
                 elif r < 0.70:
@@ -151,7 +161,18 @@ class Sign(Engine):
                 seen = set()
                 for x in tx['vin']:
                     x['script'] = gen.rhex(rng, rng.randint(0, 6))
+                nout = rng.randint(0, 3) if rng.random() < 0.8 else rng.randint(4, 6)
                 tx['vout'] = [gen.gen_txout(rng) for _ in range(nout)]
+                if nout >= 2 and rng.random() < 0.3:
+                    # the same payment twice (or three times): byte-identical outputs at different positions,
+                    # and inputs that differ only in their outpoint index
+                    src = rng.randrange(nout)
+                    for dst in rng.sample(range(nout), rng.randint(1, nout - 1)):
+                        tx['vout'][dst] = copy.deepcopy(tx['vout'][src])
+                if nin >= 2 and rng.random() < 0.2:
+                    for x in tx['vin'][1:]:
+                        x['hash'] = tx['vin'][0]['hash']
+                        x['seq'] = tx['vin'][0]['seq']
                 tx['wit'] = None
                 ht = rng.choice([1, 2, 3, 0x81, 0x82, 0x83]) if rng.random() < 0.75 else (rng.choice([0, 4, 0x7f, 0xff, 0x80, 0x1f, 0x41, 0x9f, 0x84, 0x20, 0xe3, 0x22, 0x23, 0x42, 0x63, 0xa2, 0xc3]) if rng.random() < 0.5 else rng.randrange(256))
                 S({'op': 'spend', 'template': tmpl, 'keys': [rng.randrange(16) for _ in range(nk)], 'm': m, 'tx': tx, 'input': rng.randrange(nin),
@@ -366,6 +387,13 @@ class Sign(Engine):
             r = r + N if r + N < (1 << 256) else r
         elif kind == 'other-key':
             Q = EC.mul((k['d'] % (N - 1)) + 1, EC.G)
+        elif kind == 'infinity':
+            # r = -z/d makes u1*G + u2*Q the point at infinity for ANY s: the equation has no x to compare,
+            # the signature is invalid (a verifier's internal error path, not its 'bad signature' path)
+            r = (-z * EC.inv(k['d'], N)) % N
+            s = int(a['rand'][0], 16) % (N - 1) + 1
+            if r == 0:
+                r, s = 1, 1
         vdigest = vz.to_bytes(32, 'big')
         sig = EC.der_encode(r, s)
         pubbytes = EC.point_encode(Q, k['comp'])
